@@ -145,7 +145,7 @@ Section LayoutStruct.
 
   (** * Part 1: [find_coord] *)
 
-  Lemma find_coord_some lay r o x :
+  Lemma find_coord_some (lay : list (node H)) r o x :
     find_coord lay r o = Some x -> In x lay /\ nrow x = r /\ noff x = o.
   Proof.
     induction lay as [|y lay IH]; cbn [find_coord]; [discriminate|].
@@ -156,7 +156,7 @@ Section LayoutStruct.
     - intros E. destruct (IH E) as (Hin & Hr & Ho). split; [right; exact Hin|split; assumption].
   Qed.
 
-  Lemma find_coord_none lay r o :
+  Lemma find_coord_none (lay : list (node H)) r o :
     find_coord lay r o = None <-> (forall x, In x lay -> coord x <> (r, o)).
   Proof.
     induction lay as [|y lay IH]; cbn [find_coord].
@@ -173,7 +173,7 @@ Section LayoutStruct.
         * intros Hall x Hin. apply Hall. right. exact Hin.
   Qed.
 
-  Lemma find_coord_in lay x :
+  Lemma find_coord_in (lay : list (node H)) x :
     NoDup (map coord lay) -> In x lay -> find_coord lay (nrow x) (noff x) = Some x.
   Proof.
     induction lay as [|y lay IH]; intros Hnd Hin; [destruct Hin|].
@@ -205,18 +205,18 @@ Section LayoutStruct.
   Definition head_node (c : ctree H) (r : nat) (o : N) (b : bool) (tr : nat) : node H :=
     mkNode r o (chash c) (cleafb c) b tr.
 
-  Lemma place_tree_head c r o b tr :
+  Lemma place_tree_head (c : ctree H) r o b tr :
     exists l, place_tree c r o b tr = head_node c r o b tr :: l.
   Proof. destruct c; cbn [place_tree]; eexists; reflexivity. Qed.
 
-  Lemma place_tree_head_in c r o b tr : In (head_node c r o b tr) (place_tree c r o b tr).
+  Lemma place_tree_head_in (c : ctree H) r o b tr : In (head_node c r o b tr) (place_tree c r o b tr).
   Proof. destruct (place_tree_head c r o b tr) as [l ->]. left. reflexivity. Qed.
 
   (** the slots below a placed node lie below the root of its tree *)
   Definition inrange (r : nat) (o : N) (x : node H) : Prop :=
     nrow x <= r /\ (o * p2 r <= nlo x)%N /\ (nhi x <= (o + 1) * p2 r)%N.
 
-  Lemma place_tree_range c : forall r o b tr x,
+  Lemma place_tree_range (c : ctree H) : forall r o b tr x,
     In x (place_tree c r o b tr) -> inrange r o x.
   Proof.
     induction c as [h|h l IHl rr IHr]; intros r o b tr x Hin; cbn [place_tree] in Hin.
@@ -228,7 +228,7 @@ Section LayoutStruct.
   Qed.
 
   (** every node but the head sits strictly below the root row and is no root *)
-  Lemma place_tree_tail c r o b tr x :
+  Lemma place_tree_tail (c : ctree H) r o b tr x :
     In x (place_tree c r o b tr) -> x = head_node c r o b tr \/ (nrow x < r /\ nroot x = false).
   Proof.
     revert r o b tr x.
@@ -245,7 +245,7 @@ Section LayoutStruct.
           try lia; try reflexivity; try assumption.
   Qed.
 
-  Lemma place_tree_ntree c : forall r o b tr x, In x (place_tree c r o b tr) -> ntree x = tr.
+  Lemma place_tree_ntree (c : ctree H) : forall r o b tr x, In x (place_tree c r o b tr) -> ntree x = tr.
   Proof.
     induction c as [h|h l IHl rr IHr]; intros r o b tr x Hin; cbn [place_tree] in Hin.
     - destruct Hin as [<-|[]]. reflexivity.
@@ -253,7 +253,7 @@ Section LayoutStruct.
       apply in_app_or in Hin as [Hin|Hin]; [exact (IHl _ _ _ _ _ Hin)|exact (IHr _ _ _ _ _ Hin)].
   Qed.
 
-  Lemma place_tree_nodup c : forall r o b tr, NoDup (map coord (place_tree c r o b tr)).
+  Lemma place_tree_nodup (c : ctree H) : forall r o b tr, NoDup (map coord (place_tree c r o b tr)).
   Proof.
     induction c as [h|h l IHl rr IHr]; intros r o b tr; cbn [place_tree map].
     - constructor; [intros []|constructor].
@@ -272,7 +272,7 @@ Section LayoutStruct.
 
   (** the structure of a placed well-formed tree: every node is a leaf of the tree or an inner
       node with both children placed one row below at offsets [2o], [2o+1] *)
-  Lemma place_tree_cases c : forall r o b tr x,
+  Lemma place_tree_cases (c : ctree H) : forall r o b tr x,
     cwf c -> cheight c <= r -> In x (place_tree c r o b tr) ->
     (nleaf x = true /\ In (nhash x) (cleaves c)) \/
     (nleaf x = false /\ exists r' xl xr,
@@ -307,7 +307,7 @@ Section LayoutStruct.
   Qed.
 
   (** no node of the tree lies strictly below a leaf node *)
-  Lemma place_tree_leaf_bottom c : forall r o b tr x y,
+  Lemma place_tree_leaf_bottom (c : ctree H) : forall r o b tr x y,
     In x (place_tree c r o b tr) -> In y (place_tree c r o b tr) ->
     nleaf x = true -> nrow y < nrow x -> (nlo x <= nlo y)%N -> (nlo y < nhi x)%N -> False.
   Proof.
@@ -330,7 +330,7 @@ Section LayoutStruct.
   Qed.
 
   (** every non-head node has its parent in the tree *)
-  Lemma place_tree_parent c : forall r o b tr x,
+  Lemma place_tree_parent (c : ctree H) : forall r o b tr x,
     In x (place_tree c r o b tr) -> x = head_node c r o b tr \/
     exists p, In p (place_tree c r o b tr) /\ nleaf p = false /\
               nrow p = S (nrow x) /\ noff p = (noff x / 2)%N.
@@ -343,23 +343,240 @@ Section LayoutStruct.
       + destruct (IHl _ _ _ _ _ Hin) as [->|(p & Hp & Hpl & Hpr & Hpo)].
         * eexists. split; [left; reflexivity|]. cbn [head_node nleaf nrow noff].
           split; [reflexivity|split; [reflexivity|]].
-          symmetry. apply (N.div_unique _ _ _ 0%N); lia.
+          apply (N.div_unique _ _ _ 0%N); lia.
         * exists p. split; [right; apply in_or_app; left; exact Hp|auto].
       + destruct (IHr _ _ _ _ _ Hin) as [->|(p & Hp & Hpl & Hpr & Hpo)].
         * eexists. split; [left; reflexivity|]. cbn [head_node nleaf nrow noff].
           split; [reflexivity|split; [reflexivity|]].
-          symmetry. apply (N.div_unique _ _ _ 1%N); lia.
+          apply (N.div_unique _ _ _ 1%N); lia.
         * exists p. split; [right; apply in_or_app; right; exact Hp|auto].
   Qed.
 
   (** the leaf nodes of a placed tree carry exactly its leaves, in order *)
-  Lemma place_tree_leaves c : forall r o b tr, cheight c <= r ->
+  Lemma place_tree_leaves (c : ctree H) : forall r o b tr, cheight c <= r ->
     map (@nhash H) (filter (@nleaf H) (place_tree c r o b tr)) = cleaves c.
   Proof.
     induction c as [h|h l IHl rr IHr]; intros r o b tr Hht; cbn [place_tree cleaves].
     - reflexivity.
     - cbn [cheight] in Hht. destruct r as [|r']; [lia|].
       cbn [filter nleaf]. rewrite filter_app, map_app, IHl, IHr by lia. reflexivity.
+  Qed.
+
+  (** * Part 3: compression *)
+
+  Lemma join_leaves a b : oleaves (join HO a b) = oleaves a ++ oleaves b.
+  Proof.
+    destruct a as [ca|], b as [cb|]; cbn [join oleaves cleaves app]; try reflexivity.
+    rewrite app_nil_r. reflexivity.
+  Qed.
+
+  Lemma live_app (a b : slots H) : live (a ++ b) = live a ++ live b.
+  Proof. unfold live. apply flat_map_app. Qed.
+
+  Lemma live_in (s : slots H) h : In h (live s) <-> In (Some h) s.
+  Proof.
+    unfold live. rewrite in_flat_map. split.
+    - intros ([h'|] & Hin & Hh); [destruct Hh as [<-|[]]; exact Hin|destruct Hh].
+    - intros Hin. exists (Some h). split; [exact Hin|left; reflexivity].
+  Qed.
+
+  (** the leaves of a compressed segment are its live slots, in order *)
+  Lemma compress_leaves k : forall seg,
+    oleaves (compress HO k seg) = live (firstn (2 ^ k) seg).
+  Proof.
+    induction k as [|k IH]; intros seg.
+    - cbn [compress]. change (2 ^ 0) with 1. destruct seg as [|[h|] seg]; reflexivity.
+    - rewrite compress_S, join_leaves, !IH, firstn_firstn, Nat.min_id, <- live_app.
+      rewrite Nat.pow_succ_r'. replace (2 * 2 ^ k) with (2 ^ k + 2 ^ k) by lia.
+      rewrite firstn_add. reflexivity.
+  Qed.
+
+  Lemma cleaves_nonnil (c : ctree H) : cleaves c <> [].
+  Proof.
+    induction c as [h|h l IHl r IHr]; cbn [cleaves]; [discriminate|].
+    intros E. apply app_eq_nil in E as [E _]. exact (IHl E).
+  Qed.
+
+  Lemma compress_none k seg :
+    compress HO k seg = None <-> live (firstn (2 ^ k) seg) = [].
+  Proof.
+    rewrite <- compress_leaves. destruct (compress HO k seg) as [c|]; cbn [oleaves].
+    - split; [discriminate|]. intros E. exfalso. exact (cleaves_nonnil c E).
+    - split; reflexivity.
+  Qed.
+
+  Lemma compress_wf k : forall seg c, compress HO k seg = Some c -> cwf c /\ cheight c <= k.
+  Proof.
+    induction k as [|k IH]; intros seg c Hc.
+    - cbn [compress] in Hc. destruct seg as [|[h|] seg]; try discriminate.
+      injection Hc as <-. cbn. split; [exact I|lia].
+    - rewrite compress_S in Hc.
+      destruct (compress HO k (firstn (2 ^ k) seg)) as [c1|] eqn:E1;
+        destruct (compress HO k (skipn (2 ^ k) seg)) as [c2|] eqn:E2; cbn [join] in Hc;
+        try discriminate; injection Hc as <-.
+      + destruct (IH _ _ E1) as [W1 H1]. destruct (IH _ _ E2) as [W2 H2].
+        cbn [cwf cheight]. split; [split; [reflexivity|split; assumption]|lia].
+      + destruct (IH _ _ E1) as [W1 H1]. split; [exact W1|lia].
+      + destruct (IH _ _ E2) as [W2 H2]. split; [exact W2|lia].
+  Qed.
+
+  (** [compress k] only reads the first [2^k] slots *)
+  Lemma compress_firstn k : forall m seg,
+    2 ^ k <= m -> compress HO k (firstn m seg) = compress HO k seg.
+  Proof.
+    induction k as [|k IH]; intros m seg Hm.
+    - change (2 ^ 0) with 1 in Hm. destruct m as [|m]; [lia|].
+      destruct seg as [|x seg]; reflexivity.
+    - rewrite !compress_S. rewrite Nat.pow_succ_r' in Hm.
+      rewrite firstn_firstn, Nat.min_l by lia.
+      rewrite skipn_firstn_comm, (IH (m - 2 ^ k)) by lia. reflexivity.
+  Qed.
+
+  (** * Part 4: the entries of [trees] *)
+
+  Lemma trees_entry k : forall lo s k' lo' t,
+    length s < 2 ^ S k -> In (k', lo', t) (trees HO k lo s) ->
+    k' <= k /\ (exists q, lo' = lo + q * p2 (S k'))%N /\
+    (lo' + p2 k' <= lo + N.of_nat (length s))%N /\
+    (lo + N.of_nat (length s) < lo' + p2 (S k'))%N /\
+    t = compress HO k' (skipn (N.to_nat (lo' - lo)) s).
+  Proof.
+    induction k as [|k IH]; intros lo s k' lo' t Hlen Hin.
+    - rewrite trees_0 in Hin. change (2 ^ 1) with 2 in Hlen.
+      destruct (Nat.leb_spec 1 (length s)) as [Hge|Hlt]; [|destruct Hin].
+      destruct Hin as [E|[]]. injection E as <- <- <-.
+      split; [lia|]. split; [exists 0%N; lia|]. rewrite p2_S, p2_0.
+      split; [lia|]. split; [lia|]. rewrite N.sub_diag. cbn [N.to_nat skipn].
+      apply (compress_firstn 0 1 s). cbn. lia.
+    - rewrite trees_S in Hin. pose proof (Nat.pow_succ_r' 2 (S k)) as Hpow.
+      pose proof (p2_nat (S k)) as HpN. pose proof (p2_S (S k)) as HpS.
+      rewrite Hpow in Hlen. remember (2 ^ S k) as sz eqn:Hsz.
+      destruct (Nat.leb_spec sz (length s)) as [Hge|Hlt].
+      + destruct Hin as [E|Hin].
+        * injection E as <- <- <-. split; [lia|]. split; [exists 0%N; lia|].
+          split; [lia|]. split; [lia|]. rewrite N.sub_diag. cbn [N.to_nat skipn].
+          rewrite Hsz, <- compress_S. apply compress_firstn. lia.
+        * apply IH in Hin; [|rewrite skipn_length; lia]. rewrite skipn_length in Hin.
+          destruct Hin as (Hk' & (q & Hq) & H1 & H2 & Ht).
+          split; [lia|]. split.
+          { exists (p2 (S k - S k') + q)%N. rewrite Hq, N.mul_add_distr_r, <- p2_split by lia.
+            lia. }
+          split; [lia|]. split; [lia|]. rewrite Ht, <- skipn_add. f_equal. f_equal. lia.
+      + apply IH in Hin; [|lia]. destruct Hin as (Hk' & Hq & H1 & H2 & Ht).
+        split; [lia|]. split; [exact Hq|]. split; [exact H1|]. split; [exact H2|exact Ht].
+  Qed.
+
+  (** the tree of a set bit [k'] is entry number [popcount (n >> (k'+1))] *)
+  Lemma trees_nth k : forall lo s k',
+    length s < 2 ^ S k -> k' <= k ->
+    N.testbit (N.of_nat (length s)) (N.of_nat k') = true ->
+    exists lo' t,
+      nth_error (trees HO k lo s)
+        (N.to_nat (popcount (N.of_nat (length s) / p2 (S k')))) = Some (k', lo', t).
+  Proof.
+    induction k as [|k IH]; intros lo s k' Hlen Hk' Hbit.
+    - assert (k' = 0) by lia. subst k'. rewrite trees_0. change (2 ^ 1) with 2 in Hlen.
+      destruct (length s) as [|[|n]] eqn:El; [discriminate Hbit| |lia].
+      cbn [Nat.leb]. eexists _, _. reflexivity.
+    - rewrite trees_S. pose proof (Nat.pow_succ_r' 2 (S k)) as Hpow.
+      pose proof (p2_nat (S k)) as HpN. pose proof (p2_S (S k)) as HpS.
+      pose proof (p2_pos (S k)) as Hpp.
+      rewrite Hpow in Hlen. remember (2 ^ S k) as sz eqn:Hsz.
+      destruct (Nat.leb_spec sz (length s)) as [Hge|Hlt].
+      + destruct (Nat.eq_dec k' (S k)) as [->|Hne].
+        * rewrite N.div_small by lia. eexists _, _. reflexivity.
+        * assert (Hk : k' <= k) by lia.
+          set (n1 := N.of_nat (length (skipn sz s))).
+          assert (Hn1 : N.of_nat (length s) = (p2 (S k - S k') * p2 (S k') + n1)%N).
+          { unfold n1. rewrite skipn_length, <- p2_split by lia. lia. }
+          destruct (IH (lo + N.of_nat sz)%N (skipn sz s) k') as (lo' & t & Hnth);
+            [rewrite skipn_length; lia|exact Hk| |].
+          { fold n1. rewrite Hn1, testbit_add_high in Hbit. exact Hbit. }
+          exists lo', t. rewrite Hn1. pose proof (p2_pos (S k')) as Hpk.
+          rewrite N.div_add_l by lia. fold n1 in Hnth.
+          rewrite popcount_pow_add.
+          2:{ apply N.div_lt_upper_bound; [lia|]. rewrite N.mul_comm, <- p2_split by lia.
+              unfold n1. rewrite skipn_length. lia. }
+          replace (N.to_nat (1 + popcount (n1 / p2 (S k'))))
+            with (S (N.to_nat (popcount (n1 / p2 (S k'))))) by lia.
+          cbn [nth_error]. exact Hnth.
+      + destruct (Nat.eq_dec k' (S k)) as [->|Hne].
+        * exfalso. rewrite (testbit_small (N.of_nat (length s)) (N.of_nat (S k))) in Hbit;
+            [discriminate|fold (p2 (S k)); lia|lia].
+        * apply IH; [lia|lia|exact Hbit].
+  Qed.
+
+  (** entries of [trees] start at multiples of their size *)
+  Lemma trees_entry_aligned k lo s k' lo' t q0 :
+    length s < 2 ^ S k -> lo = (q0 * p2 (S k))%N -> In (k', lo', t) (trees HO k lo s) ->
+    exists q, lo' = (q * p2 k')%N.
+  Proof.
+    intros Hlen Hlo Hin. destruct (trees_entry k lo s k' lo' t Hlen Hin) as (Hk' & (q & Hq) & _).
+    exists (q0 * p2 (S k - k') + 2 * q)%N.
+    rewrite Hq, Hlo, N.mul_add_distr_r, <- N.mul_assoc, <- p2_split, p2_S by lia. lia.
+  Qed.
+
+  (** * Part 5: the placed nodes of [trees] *)
+
+  Lemma place_entry_eq k lo t q : lo = (q * p2 k)%N ->
+    place_entry HO (k, lo, t) =
+    match t with
+    | None => [mkNode k q empty false true k]
+    | Some c => place_tree c k q true k
+    end.
+  Proof.
+    intros Hlo. cbn [place_entry]. fold (p2 k).
+    replace (lo / p2 k)%N with q; [reflexivity|].
+    rewrite Hlo, N.div_mul; [reflexivity|]. pose proof (p2_pos k). lia.
+  Qed.
+
+  Lemma place_entry_range k lo t q x : lo = (q * p2 k)%N -> In x (place_entry HO (k, lo, t)) ->
+    nrow x <= k /\ (lo <= nlo x)%N /\ (nhi x <= lo + p2 k)%N.
+  Proof.
+    intros Hlo Hin. rewrite (place_entry_eq k t Hlo) in Hin. destruct t as [c|].
+    - apply place_tree_range in Hin. unfold inrange in Hin. lia.
+    - destruct Hin as [<-|[]]. unfold nlo, nhi. cbn [nrow noff]. lia.
+  Qed.
+
+  Lemma place_entry_nodup k lo t : NoDup (map coord (place_entry HO (k, lo, t))).
+  Proof.
+    cbn [place_entry]. destruct t as [c|]; [apply place_tree_nodup|].
+    cbn [map]. constructor; [intros []|constructor].
+  Qed.
+
+  Lemma trees_nodes_range k lo s q0 x :
+    length s < 2 ^ S k -> lo = (q0 * p2 (S k))%N ->
+    In x (flat_map (place_entry HO) (trees HO k lo s)) ->
+    (lo <= nlo x)%N /\ (nhi x <= lo + N.of_nat (length s))%N.
+  Proof.
+    intros Hlen Hlo Hin. apply in_flat_map in Hin as ([[k' lo'] t] & He & Hx).
+    destruct (trees_entry_aligned k lo s k' lo' t Hlen Hlo He) as [q Hq].
+    destruct (trees_entry k lo s k' lo' t Hlen He) as (Hk' & (q1 & Hq1) & H1 & H2 & _).
+    destruct (place_entry_range k' t x Hq Hx) as (_ & H3 & H4). lia.
+  Qed.
+
+  Lemma trees_nodup k : forall lo s q0,
+    length s < 2 ^ S k -> lo = (q0 * p2 (S k))%N ->
+    NoDup (map coord (flat_map (place_entry HO) (trees HO k lo s))).
+  Proof.
+    induction k as [|k IH]; intros lo s q0 Hlen Hlo.
+    - rewrite trees_0. destruct (1 <=? length s); [|constructor].
+      cbn [flat_map]. rewrite app_nil_r. apply place_entry_nodup.
+    - rewrite trees_S. pose proof (Nat.pow_succ_r' 2 (S k)) as Hpow.
+      pose proof (p2_nat (S k)) as HpN. pose proof (p2_S (S k)) as HpS.
+      remember (2 ^ S k) as sz eqn:Hsz.
+      destruct (Nat.leb_spec sz (length s)) as [Hge|Hlt].
+      + cbn [flat_map]. rewrite map_app.
+        assert (Hlo1 : (lo + N.of_nat sz = (2 * q0 + 1) * p2 (S k))%N) by lia.
+        assert (Hlen1 : length (skipn sz s) < 2 ^ S k) by (rewrite skipn_length; lia).
+        apply NoDup_app_intro; [apply place_entry_nodup|exact (IH _ _ _ Hlen1 Hlo1)|].
+        intros cxy Hx Hy.
+        apply in_map_iff in Hx as (x & Ex & Hx). apply in_map_iff in Hy as (y & Ey & Hy).
+        assert (Hlo0 : lo = (2 * q0 * p2 (S k))%N) by lia.
+        destruct (place_entry_range (S k) _ x Hlo0 Hx) as (_ & _ & Hx').
+        destruct (trees_nodes_range k _ _ y Hlen1 Hlo1 Hy) as (Hy' & _).
+        apply (coord_sep x y (lo + p2 (S k))%N); [exact Hx'|lia|congruence].
+      + apply (IH lo s (2 * q0)%N); [lia|lia].
   Qed.
 
 End LayoutStruct.
